@@ -25,7 +25,7 @@ for p in props:
         checks.append(dict(
             property_id=pid, quick_cmd="./check %s --tier quick" % pid, thorough_cmd="./check %s --tier thorough" % pid,
             evidence_file="evidence/%s.json" % pid, replay_cmd_template="./check --replay {path}", engine="pyvc",
-            level_claimed=dict(category="proof", text=entry["level_text"], design_ref=entry.get("design_ref", "DESIGN.md 4 (%s)" % pid)),
+            level_claimed=dict(category=entry.get("category", "proof"), text=entry["level_text"], design_ref=entry.get("design_ref", "DESIGN.md 4 (%s)" % pid)),
             level_note=entry["level_note"], technique=entry["technique"]))
     else:
         na.append(dict(property_id=pid, reason=na_reasons.get(pid, "check not built yet in this session (contract-based verification planned, see DESIGN.md 4)")))
